@@ -120,14 +120,34 @@ structure PMach where
   spooled : Bool
   /-- calls on a handle of the wrong kind -/
   misuse : Nat
+  /-- the read offset of the primary input the process was started with (stdin or the named file) -/
+  inpos : Nat
+  /-- the temporary copy of stdin: its bytes and its offset -/
+  tmp : Bytes
+  tmppos : Nat
 
 /-- a fresh process over the directory `σ` -/
-def PMach.init (σ : Store) : PMach := ⟨σ, [], [], [], false, 0⟩
+def PMach.init (σ : Store) : PMach := ⟨σ, [], [], [], false, 0, 0, [], 0⟩
 
 variable {Cmd Input : Type}
 
-/-- **The machine.**  The primitives of io.go for one run `r` in the world `W`: the digest is `W.H`, every read of the
-primary input (stdin, the named file, the temporary copy) delivers `W.content r.input`, `cache.Open` is `openAt` on the
+/-- the bytes behind a readable handle: the temporary copy, or the primary input of the run -/
+def PMach.dataOf (W : World Cmd Input) (r : Run Cmd Input) (s : PMach) (f : FH) : Bytes :=
+  if f = .tmp then s.tmp else W.content r.input
+
+/-- its offset -/
+def PMach.posOf (s : PMach) (f : FH) : Nat := if f = .tmp then s.tmppos else s.inpos
+
+def PMach.setPos (s : PMach) (f : FH) (n : Nat) : PMach :=
+  if f = .tmp then { s with tmppos := n } else { s with inpos := n }
+
+/-- what a reader of the handle gets from here on (the command body reads `d.infile` to its end) -/
+def PMach.unread (W : World Cmd Input) (r : Run Cmd Input) (s : PMach) (f : FH) : Bytes :=
+  (s.dataOf W r f).drop (s.posOf f)
+
+/-- **The machine.**  The primitives of io.go for one run `r` in the world `W`: the digest is `W.H`; the primary input
+(stdin or the named file) holds `W.content r.input` and, like the temporary copy, has a read OFFSET — `io.Copy` reads from
+the offset to the end, `Seek` sets it, so a missing rewind shows as an empty read —; `cache.Open` is `openAt` on the
 directory, `cache.CreateLevel` truncates / creates the entry (placeholder header), `File.Write` collects the plain
 bytes, `File.Close` of a writer writes `finish …` — or fails, leaving the placeholder, when `r.closeOk` is false —,
 the copy of an opened entry inflates its body (`W.inflate`, or `W.inflatePrefix` and an error).  `dirOk` / `tmpOk`: whether
@@ -140,7 +160,7 @@ def protoIO (W : World Cmd Input) (r : Run Cmd Input) (dirOk tmpOk : Bool) : Del
   userCacheDir s := if dirOk then (s, "cache", none) else (s, "", some .dir)
   pathJoin a b := a ++ "/" ++ b
   mkdirAll _ _ s := (s, none)
-  tempFile _ _ s := if tmpOk then ({ s with spooled := true }, .tmp, none) else (s, .nil, some .tmp)
+  tempFile _ _ s := if tmpOk then ({ s with spooled := true, tmp := [], tmppos := 0 }, .tmp, none) else (s, .nil, some .tmp)
   osOpen p s := (s, .input p, none)
   osCreate p s := (s, .output p, none)
   osRemove n s :=
@@ -150,13 +170,20 @@ def protoIO (W : World Cmd Input) (r : Run Cmd Input) (dirOk tmpOk : Bool) : Del
     | .other => (s, none)
   fileName f := match f with | .tmp => .tmp | _ => .other
   fileClose _ s := (s, none)
-  fileSeek _ off s := (s, off, none)
+  fileSeek f off s := (s.setPos f off.toNat, off, none)
   fileWrite _ p s := ({ s with out := s.out ++ p }, (p.length : Int), none)
-  copyFile _ _ s := (s, ((W.content r.input).length : Int), none)
+  copyFile dst src s :=
+    match dst with
+    | .tmp =>
+      ({ s.setPos src (s.dataOf W r src).length with
+          tmp := s.tmp ++ s.unread W r src, tmppos := s.tmppos + (s.unread W r src).length },
+        ((s.unread W r src).length : Int), none)
+    | _ => ({ s with misuse := s.misuse + 1 }, 0, some .misuse)
   hashReset s := { s with hash := [] }
   hashWrite p s := { s with hash := s.hash ++ p }
   hashSum s := W.H s.hash
-  hashCopy _ s := ({ s with hash := s.hash ++ W.content r.input }, ((W.content r.input).length : Int), none)
+  hashCopy f s :=
+    ({ s.setPos f (s.dataOf W r f).length with hash := s.hash ++ s.unread W r f }, ((s.unread W r f).length : Int), none)
   cacheOpen _ rs qs s :=
     match openAt W.H W.d s.store rs qs with
     | .ok body => (s, .rd (name W.H rs qs) body, none)
